@@ -44,6 +44,8 @@ mod signature;
 mod signature_share;
 mod time_crypt_ciphertext;
 mod traits;
+#[cfg(feature = "verif-hooks")]
+pub mod verif_hooks;
 
 pub use error::*;
 pub use impls::*;
